@@ -40,6 +40,8 @@ def exec_job(job):
     rec = dict(fn=FN, n=n, A=encode.mat_int(np.array(job["A"], dtype=float)), raised="", malformed="",
                comps=[], sizes=[], ncomp=-1, dbin=[], dbreadth=[], dreach=[])
     A0 = A.copy()
+    if job.get("layout") == "matrix":      # an np.matrix (np.asmatrix, sparse .todense()): get_components takes it
+        A = np.asmatrix(A)
     try:
         comps, sizes = bct.get_components(A)
     except Exception as e:
@@ -102,6 +104,18 @@ def build_jobs(ctx):
             i, j = rng.sample(range(n), 2)
             A[i, j] = A[j, i] + 1
         jobs.append(dict(fn=FN, src="asymmetric-weighted", A=A.tolist()))
+    # ... symmetric inputs handed over as np.matrix (2-D semantics: axis sums stay 1 x n, `*` is a matrix product)
+    for k in range(40 if ctx.quick else 400):
+        n = rng.randint(3, 10)
+        A = np.zeros((n, n))
+        for i in range(n):
+            for j in range(i + 1, n):
+                if rng.random() < rng.choice([0.15, 0.3]):
+                    A[i, j] = A[j, i] = 1
+        for i in rng.sample(range(n), rng.randint(0, 2)):      # isolated nodes anywhere in the numbering
+            A[i, :] = 0
+            A[:, i] = 0
+        jobs.append(dict(fn=FN, src="np.matrix", A=A.tolist(), layout="matrix"))
     # random larger graphs: forests, isolated nodes, late merges
     nrand = 300 if ctx.quick else 4000
     for k in range(nrand):
@@ -167,7 +181,7 @@ def diversify(ctx, jobs):
 def run(ctx):
     ctx.mc("MC_Components.tla", "MC_Components.cfg" if ctx.quick else "MC_Components_thorough.cfg")
     jobs = diversify(ctx, build_jobs(ctx))
-    recs = pool.run_jobs(__name__, jobs, reuse=True, abort=True)
+    recs = pool.run_jobs(__name__, jobs, reuse=True, abort=True, strict_fp=True)
     verdicts = ctx.validate("Trace_Components.tla", "Trace_Components.cfg", recs)
     ctx.judge(jobs, recs, verdicts)
     # non-trivial: distinct inputs with >= 2 components of which one has >= 2 nodes, or asymmetric
